@@ -261,6 +261,15 @@ def ensure_tool(name):
 
 
 # ---------------------------------------------------------------------------------------------------------
+def canon_harness(h):
+    """findings and replay files name a harness by its descriptive alias (c05_xml), jobs by the binary (c05)"""
+    try:
+        import props
+        return props.ALIASES.get(h, h)
+    except Exception:
+        return h
+
+
 def load_known():
     p = os.path.join(VERIF, "known_findings.json")
     if not os.path.exists(p):
@@ -325,7 +334,7 @@ class Ctx:
     def known_args(self, harness=None):
         a = []
         for k in self.open_known():
-            if k.get("signature") and (not harness or not k.get("harness") or k.get("harness") == harness):
+            if k.get("signature") and (not harness or not k.get("harness") or canon_harness(k.get("harness")) == canon_harness(harness)):
                 a += ["--known", "%s=%s" % (k["id"], k["signature"])]
         return a
 
@@ -481,7 +490,7 @@ def fuzz_replay(binp, path, env, timeout=60, repeat=3):
 
 def match_known(ctx, sig, msg, harness=None):
     for k in ctx.open_known():
-        if k.get("signature") and (not harness or not k.get("harness") or k["harness"] == harness):
+        if k.get("signature") and (not harness or not k.get("harness") or canon_harness(k["harness"]) == canon_harness(harness)):
             if re.search(k["signature"], sig + " :: " + msg):
                 return k
     return None
